@@ -12,6 +12,7 @@ from oslo_policy import _parser
 from oslo_policy import policy
 
 CUR = {'ctx': None}
+LEAF_CALLS = []
 
 warnings.simplefilter('ignore')
 logging.disable(logging.CRITICAL)
@@ -29,6 +30,7 @@ class SymLeaf(_checks.Check):
     """
 
     def __call__(self, target, creds, enforcer, current_rule=None):
+        LEAF_CALLS.append(self.match)
         return CUR['ctx'].bool('leaf.' + self.match)
 
 
